@@ -6,7 +6,7 @@ import json, os, subprocess, sys, shutil
 OUTS = [("/tmp/mut/out", ""), ("/tmp/mut/out2", "r2"), ("/tmp/mut/out3", "r3"), ("/tmp/mut/out4", "r4"), ("/tmp/mut/out5", "r5"), ("/tmp/mut/out6", "r6"), ("/tmp/mut/out7", "r7")]
 WT = "/tmp/mut/confirm"
 SEEDED = "/verif/seeded"
-EXTRA = {"C01": ["C09"], "C04": ["C09"], "C18": ["C16", "C08", "C09"], "C20": ["C09"], "C17": ["C19", "C18", "C14", "C03"], "C03": ["C14", "C02", "C19", "C01", "C06"], "C07": ["C08"], "C11": ["C10"], "C15": ["C13"], "C06": ["C16", "C02"], "C05": ["C16", "C09"], "C13": ["C15"], "C14": ["C03"]}
+EXTRA = {"C01": ["C09"], "C04": ["C09"], "C18": ["C16", "C08", "C09", "C11"], "C20": ["C09", "C19"], "C17": ["C19", "C18", "C14", "C03"], "C03": ["C14", "C02", "C19", "C01", "C06"], "C07": ["C08"], "C11": ["C10"], "C15": ["C13"], "C06": ["C16", "C02"], "C05": ["C16", "C09"], "C13": ["C15"], "C14": ["C03"]}
 def sh(cmd, cwd=None, timeout=3000):
     p = subprocess.run(cmd, shell=True, cwd=cwd, capture_output=True, text=True, timeout=timeout)
     return p.returncode, p.stdout + p.stderr
